@@ -170,6 +170,8 @@ def kernel_cases(rng, n_ops, quick, shapes=None, metrics=False, pz=0.1, neg=Fals
     for c in cases:
         if c.get("tile") and rng.random() < 0.5:
             c["tilediv"] = 1
+        elif rng.random() < 0.25 and not c.get("ufmt"):
+            c["opnoshape"] = 1          # operands without declared shapes (estimated from their contents), tiled or not
     return cases
 
 
